@@ -454,6 +454,10 @@ class Ev:
         env = dict(bound)
         if env.get("self") == "<self>":
             del env["self"]
+            # facts about the same object stay visible (e.g. 'self.ver')
+            for k, v in self.env.items():
+                if isinstance(k, str) and k.startswith("self."):
+                    env.setdefault(k, v)
         sub = Ev(self.repo, mod, env, self_cls or self.self_cls, self.depth + 1)
         r = sub.run_block(fd.body)
         if r is _FALL:
